@@ -142,6 +142,7 @@ let parse_op (toks : string list) : op =
   | ["clone"; v; d] -> OClone (nat v, nat d)
   | ["clone_empty"; v; d] -> OCloneEmpty (nat v, nat d)
   | ["clone_empty_in"; v; d; bk] -> OCloneEmptyIn (nat v, nat d, parse_bk bk)
+  | ["clone_in"; v; bk; k] -> OCloneIn (nat v, parse_bk bk, nn k)
   | ["reserve"; v; n] | ["treserve"; v; n] -> OReserve (nat v, nn n)
   | ["reserve_exact"; v; n] | ["treserve_exact"; v; n] -> OReserveExact (nat v, nn n)
   | ["shrink_to_fit"; v] | ["tshrink_to_fit"; v] -> OShrinkToFit (nat v)
